@@ -8,3 +8,6 @@ import JugModel.Props.C05
 #print axioms Jug.C05.residue_is_temp_only
 #print axioms Jug.C05.visible_implies_complete
 #print axioms Jug.C05.old_or_new
+#print axioms Jug.C05.failed_write_visible_implies_complete
+#print axioms Jug.C05.gave_up_publishes_nothing
+#print axioms Jug.C05.failing_writes_safe
